@@ -558,6 +558,18 @@ def session_history(rng, prof):
             if prof.get("wills") and rng.random() < prof["wills"]:
                 kw["will"] = dict(t=["w", c], m=g.msg(), qos=rng.choice([0, 1]), retain=False, delay=rng.choice(prof.get("will_delay", [0, 0, 20])))
             g.connect(c, **kw)
+        elif a == "clean_v3_takeover":
+            # a LIVE MQTT 3 clean session (subscription + unacknowledged delivery) is taken over by a connection of either
+            # version with Clean Start 0: nothing of it may be inherited (directed: random takeovers rarely line this up)
+            if k:
+                g.ops.append(op("netdrop", k=k))
+                del g.conn[c]
+            k1 = g.connect(c, v=rng.choice([4, 4, 3]), clean=True)
+            f = rng.choice([["a"], ["b"]])
+            g.ops.append(op("subscribe", k=k1, pid=g.pid(k1), filters=[dict(f=f, qos=1, nl=False, rap=False, rh=0)]))
+            g.ops.append(op("publish", k=g.k("obs"), t=f, m=g.msg(), qos=1, pid=g.pid(g.k("obs")) + 100))
+            g.connect(c, v=rng.choice([5, 5, 4]), clean=False, sei=300)
+            g.ops.append(op("publish", k=g.k("obs"), t=f, m=g.msg(), qos=1, pid=g.pid(g.k("obs")) + 100))
         elif a == "subscribe" and k:
             g.ops.append(op("subscribe", k=k, pid=g.pid(k), filters=[dict(f=rng.choice([["a"], ["b"], ["a", "#"], ["+"]]), qos=rng.choice([0, 1, 2]), nl=False, rap=False, rh=0)]))
         elif a == "publish":
